@@ -157,7 +157,7 @@ theorem run_bind {α β : Type} (c : Comp α) (f : α → Comp β) (ctx : Ctx) :
 /-- The context a function body sees: `{i}` is the value of the call's `i`-th argument in the caller's
     match, a missing argument is empty, named keys are the caller's. -/
 def argCtx (ctx : Ctx) (nargs : Nat) (vals : List Bytes) : Ctx :=
-  { getMatch := fun i => if i < 0 ∨ i ≥ nargs then [] else vals.getD i.toNat [],
+  { getMatch := fun i => if i < 0 then ctx.getMatch i else if i ≥ nargs then [] else vals.getD i.toNat [],
     getKey := ctx.getKey }
 
 theorem withArgs_run {α : Type} (args : List Stage) (ctx : Ctx) (vals : List Bytes)
@@ -173,7 +173,11 @@ theorem withArgs_run {α : Type} (args : List Stage) (ctx : Ctx) (vals : List By
     · rename_i h
       simp only [Comp.run, argCtx, h, if_true]
       exact ih _
-    · rename_i h
+    split
+    · rename_i h0 h
+      simp only [Comp.run, argCtx, h0, h, if_true, if_false]
+      exact ih _
+    · rename_i h0 h
       have hlt : i.toNat < args.length := by omega
       have hlen : vals.length = args.length := by
         have := congrArg List.length hargs; simpa using this.symm
@@ -185,7 +189,7 @@ theorem withArgs_run {α : Type} (args : List Stage) (ctx : Ctx) (vals : List By
         rw [List.getElem?_eq_getElem (by omega)] at h1 ⊢
         simpa using h1
       rw [run_bind, hget]
-      simp only [Comp.run, argCtx, h, if_false]
+      simp only [Comp.run, argCtx, h0, h, if_false]
       exact ih _
 
 /-! ### the definitions-file joiner -/
